@@ -141,7 +141,7 @@ OnDemandCliSigs(s, h, o) ==
 SigsForS(s, h, o) == sigs \cup AttCliSigs(s, h, o) \cup OnDemandCliSigs(s, h, o)
 
 PkMenu(o) == IF o.cpk = None THEN {"kC", "kA", None} \cup (IF Rich THEN {"kS"} ELSE {})
-             ELSE {None} \cup (IF Rich THEN {"kA"} ELSE {})
+             ELSE {None, "kA"}     \* the key bound into the blob wins over the parameter
 CsMenu(s, o) == IF o.mac = s /\ ~o.tok /\ o.cpk = None
                 THEN {0, ANonce} \cup (IF cli.chS # 0 THEN {cli.chS} ELSE {}) ELSE {0}
 
